@@ -9,7 +9,7 @@ import re
 from . import common as C
 
 THEOREMS = ["ShipVerif.Pair.C03_agreement", "ShipVerif.Pair.C03_trusted_completes", "ShipVerif.Pair.C03_approved_completes_partial",
-            "ShipVerif.Pair.C03_untrusted_never_completes", "ShipVerif.Pair.C03_setup_once_and_ids", "ShipVerif.Pair.C03_streams_bounded",
+            "ShipVerif.Pair.C03_untrusted_never_completes", "ShipVerif.Pair.C03_pending_kept", "ShipVerif.Pair.C03_setup_once_and_ids", "ShipVerif.Pair.C03_streams_bounded",
             "ShipVerif.Pair.C03_approve_with_hello_under_way", "ShipVerif.Pair.PairCert.closed_ok", "ShipVerif.Pair.PX.dec_enc"]
 THEOREMS_ARB = ["ShipVerif.Pair.C03_agreement_one_premature_expiry", "ShipVerif.Pair.PairCertArb.closed_ok"]
 
@@ -104,6 +104,11 @@ def predicates(ins, impl, premature):
             fail("the server neither trusts the client nor auto-accepts and the user did not approve, yet a side completed / set up the remote device")
         elif (cfg["relC"] == "m" and sd["C"][1].get("st") == "38") or (cfg["relS"] == "m" and sd["S"][1].get("st") == "38"):
             fail("a side that has another SHIP id stored for its peer completed")
+        elif (premature == 0 and cfg["envS"][2] == "1" and not st["cancelled"] and sd["S"][1].get("st") in ("14", "15")
+              and sd["C"][1].get("ws") == "0" and sd["C"][1].get("st") not in ("14", "15", "16", "17", "39")):
+            # C03_pending_kept: the request is not dropped by the server on its own while the client still waits
+            fail("waiting is allowed, nobody cancelled, messages arrived in time and the client is still waiting (state %s), yet the server aborted the pending request (state %s): an approval has nothing left to act on"
+                 % (sd["C"][1].get("st"), sd["S"][1].get("st")))
         elif "end=quiescent" in out:
             comp = {n: sd[n][1].get("st") == "38" and sd[n][1].get("ws") == "0" for n in ("C", "S")}
             ended = {n: sd[n][1].get("ws") == "1" for n in ("C", "S")}
